@@ -42,6 +42,8 @@ type simEager struct {
 	Ldr  bool `json:"ldr"`
 	Poll bool `json:"poll"`
 	Fsm  bool `json:"fsm"`
+	// entries per append request (0 = the library's 64): lets batching happen with short logs
+	MaxAppend int `json:"maxAppend,omitempty"`
 }
 
 type simRPC struct {
@@ -68,6 +70,7 @@ type simTask struct {
 	val  int
 	t    Task
 	done bool
+	res  string // outcome observed when the task completed
 }
 
 type simNode struct {
@@ -189,6 +192,7 @@ func newSimCluster(name string, baseDir string, ids []uint64, voters []uint64, n
 		undialed: make(map[[2]uint64][]*simRPC),
 		parked:   make(map[*replication]*appendReq),
 	}
+	verifMaxAppendEntries = uint64(eager.MaxAppend)
 	if rec != nil {
 		c.rec = json.NewEncoder(rec)
 	}
